@@ -7,6 +7,7 @@ Driver for C32.  Line protocol (see harness/cmd/c32/main.go):
 
   trace   <mode> <cache> <pb> <kinds> <pre>                 -> hook-point names of the interrupted build step, in order
   crash   <mode> <cache> <pb> <kinds> <pre> <k> <j> <next>  -> files of the target after the kill | what the next build does
+  crash2  <mode> <cache> <pb> <kinds> <pre> <k1> <j1> <k2> <j2> <next>  -> the same after a second, plain build was killed too
   fbtrunc <kinds> <len>                                      -> next build after a fallback record was cut to <len> bytes
   wf      <old|none> <new> <mode> <chunk> <n> <how>          -> destination / temporary after fs.WriteFile died
   gob     <hex>                                              -> number of strict prefixes of the gob that decode (claim: 0)
@@ -40,7 +41,7 @@ def s1 : Nat := 200
 def parseScn (mode cache pb kinds pre : String) : Option Scn :=
   let ks := kinds.toList
   if !(mode = "x" || mode = "f") || !(cache = "c" || cache = "n") || !(pb = "p" || pb = "-") then none
-  else if ks.isEmpty || !ks.all (fun c => c = 'f' || c = 'd') then none
+  else if ks.isEmpty || !ks.all (fun c => c = 'f' || c = 'd' || c = 's') then none
   else
     let mask? : Option (List Bool) :=
       match pre.splitOn ":" with
@@ -56,7 +57,8 @@ def params (s : Scn) (cur : Bool) : P :=
     stamp := if cur then s1 else s0,
     hash := id,
     mdBytes := gobNew, mdSplit := [1], mdLoads := fun bs => bs == gobNew,
-    useFb := fun _ => s.fb, mdUseFb := s.fb,
+    useFb := fun i => s.fb || s.kinds.getD i 'f' = 's',      -- fs.RecordAttr: xattrs disabled, or the output is a symlink
+    mdUseFb := s.fb,
     rmSteps := fun i => if s.kinds.getD i 'f' = 'd' then [partC] else [],
     fbParts := [50], cache := true,       -- state.Cache is never nil (a no-op cache when none is configured)
     readsMd := s.pb }
@@ -67,7 +69,8 @@ def complete (s : Scn) (cur : Bool) : T :=
   let st := if cur then s1 else s0
   { md := some gobNew, mdAttr := if s.fb then none else some st, mdFb := if s.fb then some (.full st) else none,
     out := fun i => if i < s.kinds.length then
-      ⟨none, some ⟨if cur then c1 s i else c0 i, if s.fb then none else some st⟩, if s.fb then some (.full st) else none⟩
+      let fb := s.fb || s.kinds.getD i 'f' = 's'
+      ⟨none, some ⟨if cur then c1 s i else c0 i, if fb then none else some st⟩, if fb then some (.full st) else none⟩
       else emptySlice,
     cached := 0 }
 
@@ -127,7 +130,7 @@ def showSlice (s : Scn) (i : Nat) (sl : Slice Nat Nat) : String :=
   let c := match sl.gen with
     | none => "none"
     | some nd => if nd.content = c0 i then "c0" else if nd.content = c1 s i then "c1" else "part"
-  let st := if s.fb then
+  let st := if s.fb || s.kinds.getD i 'f' = 's' then
       (match sl.fb with | none => "none" | some (.trunc _) => "trunc" | some (.full n) => showStamp (some n))
     else showStamp (sl.gen.bind (·.attr))
   s!"o{i}={c}/{st}"
@@ -148,17 +151,52 @@ def showNext (b : P) (fs : T) : String :=
     let r2 := buildFSWith Generated.C32.buildPhases b false r.1
     "next=fail second=" ++ (if r2.2 then "ok" else "fail") ++ " final=" ++ fin r2.1
 
+/-- hook points inside which the harness can emulate a partial step -/
+def innerAllowed (name : String) : Bool :=
+  ["md-write", "out-remove", "stamp-out", "stamp-md"].contains ((name.splitOn ":").headD "")
+
+/-- the files after the build step of T1, started in `fs`, was killed just before hook point `k` plus `j` inner steps -/
+def cutAt (forced : Bool) (b : P) (fs : T) (k j : Nat) : Option T :=
+  let ms := macros forced b fs
+  if k > ms.length then none else
+  match ms[k]? with
+  | some m =>
+    if j > 0 && (j ≥ m.ops.length || !innerAllowed m.name) then none
+    else some (applyOps fs ((ms.take k).flatMap (·.ops) ++ m.ops.take j))
+  | none => if j > 0 then none else some (applyOps fs (ms.flatMap (·.ops)))
+
 def stepCrash (s : Scn) (k j : Nat) (next : String) : String :=
   let b := params s true
   let fs := preState s
   if !macrosConsistent b fs then "plan-mismatch" else
-  let ms := macros (s.pre = "cur") b fs
-  if k > ms.length then "bad-op" else
-  let inner := match ms[k]? with | some m => m.ops | none => []
-  if j > 0 && j ≥ inner.length then "bad-op" else
-  let crash := applyOps fs ((ms.take k).flatMap (·.ops) ++ inner.take j)
-  let bn := params s (next = "same")
-  showState s crash ++ " | " ++ showNext bn crash
+  match cutAt (s.pre = "cur") b fs k j with
+  | none => "bad-op"
+  | some crash =>
+    let bn := params s (next = "same")
+    showState s crash ++ " | " ++ showNext bn crash
+
+/-- a second, plain `plz build` of T1 on what the first kill left, itself killed at (k2, j2); a run that finds the
+    target up to date has no hook points and ends by itself (failing, and removing the outputs, when the metadata does
+    not load); so does a run with fewer than k2 hook points -/
+def stepCrash2 (s : Scn) (k1 j1 k2 j2 : Nat) (next : String) : String :=
+  let b := params s true
+  let fs := preState s
+  if !macrosConsistent b fs then "plan-mismatch" else
+  match cutAt (s.pre = "cur") b fs k1 j1 with
+  | none => "bad-op"
+  | some c1 =>
+    if !macrosConsistent b c1 then "plan-mismatch" else
+    let second : Option T :=
+      if needsBuilding b c1 then
+        (if k2 ≥ (macros false b c1).length then (if j2 > 0 then none else some (applyOps c1 ((macros false b c1).flatMap (·.ops))))
+         else cutAt false b c1 k2 j2)
+      else if j2 > 0 then none
+      else if mdFails b c1 then some (removeOutputs b c1) else some c1
+    match second with
+    | none => "bad-op"
+    | some c2 =>
+      let bn := params s (next = "same")
+      showState s c2 ++ " | " ++ showNext bn c2
 
 def parseNat? (s : String) : Option Nat := s.toNat?
 
@@ -201,6 +239,11 @@ def step (line : String) : String :=
     match parseScn mode cache pb kinds pre, parseNat? k, parseNat? j with
     | some s, some k, some j => if next = "same" || next = "revert" then stepCrash s k j next else "bad-op"
     | _, _, _ => "bad-op"
+  | ["crash2", mode, cache, pb, kinds, pre, k1, j1, k2, j2, next] =>
+    match parseScn mode cache pb kinds pre, parseNat? k1, parseNat? j1, parseNat? k2, parseNat? j2 with
+    | some s, some k1, some j1, some k2, some j2 =>
+      if next = "same" || next = "revert" then stepCrash2 s k1 j1 k2 j2 next else "bad-op"
+    | _, _, _, _, _ => "bad-op"
   | ["fbtrunc", kinds, len] =>
     match parseScn "f" "n" "-" kinds "cur", parseNat? len with
     | some s, some len =>
